@@ -172,3 +172,48 @@ Proof.
   destruct (boot_with []) as [s|] eqn:E; [|discriminate H].
   exists s. split; [reflexivity|]. exact (boot_with_finv [] s E).
 Qed.
+
+(* the compiler on the same datum: four code objects are installed (three lambdas and the
+   runnable wrapper), the entry code is returned; all of it satisfies bc_ok — by the theorem,
+   and (independently) by the boolean checker *)
+Example fa_compile :
+  exists l s', compile_runnable fa_datum (vm_empty 64) = ROk l s' /\
+    l_bc (lambda_finish l) = [VOp OPushImmediate; VArgc 0; VOp OMovImmediate; VPtr 5; VAcc; VOp OCallAcc; VOp OHalt] /\
+    PositiveMap.cardinal (lams (st s')) = 4%nat /\
+    forallb (fun p => bc_okb (l_bc (snd p))) (PositiveMap.elements (lams (st s'))) = true /\
+    bc_ok (l_bc (lambda_finish l)) /\ finv s'.
+Proof.
+  assert (H : match compile_runnable fa_datum (vm_empty 64) with
+              | ROk l s' => Some (l_bc (lambda_finish l), PositiveMap.cardinal (lams (st s')),
+                                  forallb (fun p => bc_okb (l_bc (snd p))) (PositiveMap.elements (lams (st s'))))
+              | _ => None end
+              = Some ([VOp OPushImmediate; VArgc 0; VOp OMovImmediate; VPtr 5; VAcc; VOp OCallAcc; VOp OHalt],
+                      4%nat, true)) by (vm_compute; reflexivity).
+  assert (F0 : finv (vm_empty 64)) by (apply finv_empty; reflexivity).
+  pose proof (compile_runnable_bc_ok fa_datum (vm_empty 64) F0) as P.
+  destruct (compile_runnable fa_datum (vm_empty 64)) as [l s'| | |] eqn:E; try discriminate H.
+  injection H as H1 H2 H3. destruct P as [F1 B].
+  exists l, s'. split; [reflexivity|]. split; [exact H1|]. split; [exact H2|]. split; [exact H3|]. split; [exact B|exact F1].
+Qed.
+
+(* ------------------------------------------------------------------ sessions *)
+(* the states a front end can reach: any number of Vm::eval calls, with any data and any
+   instruction budgets of the model, whatever their outcomes *)
+Inductive evals : vm -> vm -> Prop :=
+| evals_refl s : evals s s
+| evals_step s fuel e res s1 s2 :
+    eval other_builtin fuel e s = ROk res s1 -> evals s1 s2 -> evals s s2.
+
+Theorem evals_finv s s' : evals s s' -> finv s -> finv s'.
+Proof.
+  induction 1 as [s|s fuel e res s1 s2 H _ IH]; intros F; [exact F|].
+  apply IH. exact (eval_finv_all fuel e s res s1 F H).
+Qed.
+
+Theorem session_locations_flat s0 s :
+  booted = Some s0 -> evals s0 s ->
+  forall p k q k2 eid l,
+    env_at s p = Some (eid, l) -> list_get l k = Some (VLexPtr q k2) ->
+    exists e2 l2 v, env_at s q = Some (e2, l2) /\ list_get l2 k2 = Some v /\
+                    match v with VLexPtr _ _ => False | _ => True end.
+Proof. intros B R. exact (finv_flat s (evals_finv s0 s R (booted_finv s0 B))). Qed.
